@@ -1,0 +1,49 @@
+//go:build verif
+
+package parser
+
+import "unsafe"
+
+// Verif hook events.
+const (
+	EvStart = iota
+	EvExit
+	EvRecvBefore
+	EvRecvAfter
+	EvSendBefore
+	EvSendAfter
+	EvBail
+	EvErrWrite
+	EvRead
+	EvHdInc
+	EvHdPush
+	EvHdPopWait
+	EvHdPopWake
+	EvHdPopGot
+	EvSubst
+	EvNestedParseExit
+	EvJoinBefore
+	EvParseExit
+	EvNest
+)
+
+// VerifHook is called at instrumentation points when built with -tags verif.
+var VerifHook func(ev int, lexer, aux uintptr)
+
+func verifPoint(l *lexer, ev int) {
+	if h := VerifHook; h != nil {
+		h(ev, uintptr(unsafe.Pointer(l)), uintptr(unsafe.Pointer(&l.heredoc)))
+	}
+}
+
+func verifPointH(hd *heredoc, ev int) {
+	if h := VerifHook; h != nil {
+		h(ev, 0, uintptr(unsafe.Pointer(hd)))
+	}
+}
+
+func verifNest(parent, child *lexer) {
+	if h := VerifHook; h != nil {
+		h(EvNest, uintptr(unsafe.Pointer(child)), uintptr(unsafe.Pointer(parent)))
+	}
+}
